@@ -57,6 +57,7 @@ from solvor.lns import lns as _lns
 from solvor.simplex import Status as LPStatus
 from solvor.simplex import solve_lp
 from solvor.types import Result, Status
+from solvor import _verif
 from solvor.utils import check_integers_valid, check_matrix_dims, warn_large_coefficients
 
 __all__ = ["solve_milp"]
@@ -130,6 +131,8 @@ def solve_milp(
 
     # Only tighten bounds if explicit x_j <= 1 constraints exist
     if looks_binary and _detect_binary(A, b, int_set, n, eps):
+        if _verif.ENABLED:  # pragma: no cover
+            _verif.emit("milp_tighten_binary", variables=sorted(int_set))
         for j in int_set:
             lower[j] = max(lower[j], 0.0)
             upper[j] = min(upper[j], 1.0)
